@@ -284,9 +284,9 @@ Print Assumptions compressed_cases_lossless.
 (** a toy hash (any function will do): distinct inputs, distinct "digests" *)
 Definition toy_sha (i : hin) : Z :=
   match i with
-  | HApp a => 1000003 * (a + 7)
-  | HAddr c => 2000003 * (c + 11)
-  | HSeed sd => 3000017 * (sd + 13)
+  | HApp a => 1000003000000000000007 * (a + 7)
+  | HAddr c => 2000003000000000000011 * (c + 11)
+  | HSeed sd => 3000017000000000000013 * (sd + 13)
   | HSum z => 7919 * z + 104729
   end.
 
